@@ -1,2 +1,4 @@
-pub mod syn;
 pub mod layout;
+pub mod prog;
+pub mod syn;
+pub mod mutate;
